@@ -600,6 +600,158 @@ func genParFacts() {
 		}
 	}
 
+	// fields and package-level variables handed to sync/atomic somewhere in the package: every other access to the
+	// same memory has to be atomic too — a plain `*scope.Counter` (or `x` where `&x` goes to atomic.AddInt64) next
+	// to the atomic operation is a data race whatever the surrounding code looks like.
+	{
+		ar := newRegion("fields and package-level variables accessed with sync/atomic", token.NoPos)
+		type target struct {
+			obj     types.Object
+			pointer bool // the field itself is a pointer handed to atomic (X), not &X
+		}
+		targets := map[types.Object]target{}
+		atomicArgs := map[ast.Expr]bool{}
+		fieldOrGlobal := func(e ast.Expr) types.Object {
+			switch x := e.(type) {
+			case *ast.SelectorExpr:
+				if sel := p.Info.Selections[x]; sel != nil && sel.Kind() == types.FieldVal {
+					return sel.Obj()
+				}
+			case *ast.Ident:
+				if o, ok := p.Info.Uses[x].(*types.Var); ok && o.Parent() == p.Types.Scope() {
+					return o
+				}
+			}
+			return nil
+		}
+		for _, f := range p.Files {
+			ast.Inspect(f, func(n ast.Node) bool {
+				c, ok := n.(*ast.CallExpr)
+				if !ok || len(c.Args) == 0 {
+					return true
+				}
+				sel, ok := c.Fun.(*ast.SelectorExpr)
+				if !ok {
+					return true
+				}
+				pid, ok := sel.X.(*ast.Ident)
+				if !ok {
+					return true
+				}
+				pn, ok := p.Info.Uses[pid].(*types.PkgName)
+				if !ok || pn.Imported().Path() != "sync/atomic" {
+					return true
+				}
+				a0 := c.Args[0]
+				if u, ok := a0.(*ast.UnaryExpr); ok && u.Op == token.AND {
+					if o := fieldOrGlobal(u.X); o != nil {
+						targets[o] = target{o, false}
+						atomicArgs[u.X] = true
+					}
+				} else if o := fieldOrGlobal(a0); o != nil {
+					targets[o] = target{o, true}
+					atomicArgs[a0] = true
+				}
+				return true
+			})
+		}
+		for _, f := range p.Files {
+			for _, d := range f.Decls {
+				fd, ok := d.(*ast.FuncDecl)
+				if !ok || fd.Body == nil {
+					continue
+				}
+				b := &wbody{label: funcLabel(fd), multi: true}
+				used := false
+				par := map[ast.Node]ast.Node{}
+				var stack []ast.Node
+				ast.Inspect(fd.Body, func(n ast.Node) bool {
+					if n == nil {
+						stack = stack[:len(stack)-1]
+						return true
+					}
+					if len(stack) > 0 {
+						par[n] = stack[len(stack)-1]
+					}
+					stack = append(stack, n)
+					return true
+				})
+				ast.Inspect(fd.Body, func(n ast.Node) bool {
+					e, ok := n.(ast.Expr)
+					if !ok {
+						return true
+					}
+					o := fieldOrGlobal(e)
+					if o == nil {
+						return true
+					}
+					tg, ok := targets[o]
+					if !ok {
+						return true
+					}
+					if _, isSel := par[n].(*ast.SelectorExpr); isSel && par[n].(*ast.SelectorExpr).Sel == n {
+						return true // the Sel identifier of the selector we already look at
+					}
+					add := func(rw byte, k akind, how string) {
+						used = true
+						if ar.pos == token.NoPos {
+							ar.pos = e.Pos()
+						}
+						ar.acc = append(ar.acc, &access{pos: e.Pos(), fn: funcLabel(fd), body: b, path: o.Name(), rw: rw, kind: k, how: how})
+					}
+					if atomicArgs[e] {
+						add('W', kSync, "atomic")
+						return true
+					}
+					if tg.pointer {
+						// the pointer itself may be copied, compared, allocated; only a plain dereference touches the counter
+						if st, ok := par[n].(*ast.StarExpr); ok && st.X == e {
+							rw := byte('R')
+							if as, ok := par[st].(*ast.AssignStmt); ok {
+								for _, l := range as.Lhs {
+									if l == ast.Expr(st) {
+										rw = 'W'
+									}
+								}
+							}
+							if _, ok := par[st].(*ast.IncDecStmt); ok {
+								rw = 'W'
+							}
+							add(rw, kVar, "")
+						}
+						return true
+					}
+					// a value-typed field / variable: every mention outside sync/atomic is a plain access
+					rw := byte('R')
+					if as, ok := par[n].(*ast.AssignStmt); ok {
+						for _, l := range as.Lhs {
+							if l == e {
+								rw = 'W'
+							}
+						}
+					}
+					if _, ok := par[n].(*ast.IncDecStmt); ok {
+						rw = 'W'
+					}
+					if kv, ok := par[n].(*ast.KeyValueExpr); ok && kv.Key == e {
+						return true // field name in a composite literal: initialisation before the object is shared
+					}
+					add(rw, kVar, "")
+					return true
+				})
+				if used {
+					ar.bodies = append(ar.bodies, b)
+				}
+			}
+		}
+		// an atomic operation conflicts with every plain access of the same memory
+		for _, ac := range ar.acc {
+			if ac.kind == kSync {
+				ar.acc = append(ar.acc, &access{pos: ac.pos, fn: ac.fn, body: ac.body, path: ac.path, rw: 'W', kind: kVar, guard: "sync/atomic", how: ""})
+			}
+		}
+	}
+
 	// methods of Cursor (cursor.go): a cursor of an outer scope is reached from parallel evaluation — the cursor
 	// status expressions (evalCursorStatus / evalCursorAttribute → IsOpen, IsInRange, Count, Pointer) in a WHERE
 	// clause or select list, and FETCH / OPEN / CLOSE inside a user-defined function called from one.  Every
